@@ -6,7 +6,7 @@ The real __mul__/__rmul__/__neg__/__truediv__/conj/transpose/conjugate_transpose
 _mps_parent.py and add/multiply of _mps_obc.py are interpreted on ghost site tensors.
 """
 from pyvc import sym
-from pyvc.sym import And, Or, Not, Implies, Iff, Ite, deep_eq, Sym
+from pyvc.sym import And, Or, Not, Implies, Iff, Ite, deep_eq, Sym, SCx
 from contracts.ghost_mps import World, GT, install_world_norms, state_of, make_psi
 
 PROPERTY = 'C06'
@@ -63,8 +63,12 @@ def h_scalar(V, N, nr_phys, op, sign):
         x = 0.0
     elif sign == 'pos':
         V.assume(x > 0)
-    else:
+    elif sign == 'neg':
         V.assume(x < 0)
+    else:                       # a complex scalar with non-zero imaginary part (any real part)
+        im = V.real('number_im')
+        V.assume(im != 0)
+        x = SCx(x, im)
     if op == 'mul':
         r, want = V.call(psi.__mul__, x), x * s0
     elif op == 'rmul':
@@ -76,8 +80,15 @@ def h_scalar(V, N, nr_phys, op, sign):
             return
         r, want = V.call(psi.__truediv__, x), s0 / x
     s1, w1 = state_of(r)
-    V.check('state-is-the-scalar-multiple', And(s1 == want, w1 == w0))
-    V.check('factor-stays-non-negative', r.factor >= 0)
+    # lemma: site tensors that are the very same objects before and after contribute the same scale to both sides
+    same = [n for n in range(N) if r.A[n] is psi.A[n]]
+    red0, red1 = psi.factor, r.factor
+    for n in range(N):
+        if n not in same:
+            red0, red1 = red0 * psi.A[n].scale, red1 * r.A[n].scale
+    mult = {'mul': lambda z: x * z, 'rmul': lambda z: x * z, 'neg': lambda z: -z, 'div': lambda z: z / x}[op]
+    V.check_via('state-is-the-scalar-multiple', And(red1 == mult(red0), w1 == w0), And(s1 == want, w1 == w0))
+    V.check('factor-stays-non-negative', And(r.factor >= 0, not isinstance(r.factor, SCx)))
     V.check('new-object-and-operand-untouched', r is not psi and unchanged(psi, snap) and r.A is not psi.A)
 
 
@@ -266,7 +277,7 @@ def units(tier):
     for nr in (1, 2):
         for N in Ns:
             for op in ('mul', 'rmul', 'neg', 'div'):
-                for sign in ('pos', 'neg', 'zero'):
+                for sign in ('pos', 'neg', 'zero', 'complex'):
                     if op == 'neg' and sign != 'pos':
                         continue
                     U.append(('h_scalar', f"N={N},nr_phys={nr},{op},{sign}", dict(N=N, nr_phys=nr, op=op, sign=sign)))
